@@ -23,13 +23,6 @@ import SigModel.Model.Backends
 namespace SigModel.Backends
 open SigModel.Proto
 
-/-- A lookup as tokenised by the harness (net/url only). -/
-structure Probe where
-  scheme : String
-  host : String
-  url : String
-  deriving DecidableEq, Repr
-
 /-- What a lookup returned: the attributes the statement talks about. -/
 structure Ans where
   id : String
@@ -48,7 +41,9 @@ def specMatches (p : Probe) (b : Backend) : Bool :=
   (p.scheme == "https" || (p.scheme == "http" && b.allowHttp)) &&
   (b.url == "" || hasPrefix b.url p.url)
 
-def specAccepts (final : List Backend) (p : Probe) : Bool := final.any (specMatches p)
+/-- A url with "." / ".." path segments is attributed to no backend (the web server behind it would
+resolve them before routing); otherwise: some configured backend matches. -/
+def specAccepts (final : List Backend) (p : Probe) : Bool := !p.dots && final.any (specMatches p)
 
 def kvStep (kv : Infos) : EtcdOp → Infos
   | .put k (some i) => iset kv k i
@@ -90,7 +85,7 @@ structure Judge where
 def judgeProbe (final : List Backend) (p : Probe) (chain fresh : Option Ans) : String :=
   match chain with
   | some a =>
-    if !(final.any (fun b => ansOf b == a && specMatches p b)) then
+    if !(!p.dots && final.any (fun b => ansOf b == a && specMatches p b)) then
       "violated:accepted-by-a-backend-that-is-not-in-the-final-configuration"
     else if fresh == chain then "ok"
     else match fresh with
